@@ -16,6 +16,7 @@ struct ReadScript {
     int64_t reported_size = 0; // st_size returned by fstat
     int read_errno = 0;        // read error...
     size_t read_error_at = 0;  // ...once this many bytes were delivered
+    bool read_error_persistent = true; // every later read fails as well (false: one failed call, then the data continues)
     size_t chunk = 0;          // max bytes per underlying read call (0 = unlimited)
     bool unbuffered = false;
 };
